@@ -23,6 +23,7 @@ VARIABLES
 tvars == <<vars, l, qs, ss, scn, fails, viol>>
 
 CONSTANT CheckInvs   \* names of the StoreProps predicates to evaluate after every line
+CONSTANT GProj       \* [group-by name -> [native group key -> projected key]] (C06)
 
 Line == Trace[l]
 IsEv(a) == l <= Len(Trace) /\ Line.a = a /\ l' = l + 1
@@ -130,12 +131,61 @@ TQueryResult ==
         ELSE obs = M
   /\ UNCHANGED <<vars, qs, ss, scn, fails>>
 
+----------------------------------------------------------------------------
+(* Grouped and time-ranged queries (C06, C07; Query semantics).              *)
+(*                                                                           *)
+(* desc = [by, m, asOf, until]: by names the dimension subset ("*" = the     *)
+(* table's own key), m the period multiple (0 = none given), asOf / until    *)
+(* are [k |-> "none" | "abs" | "rel", v |-> ticks].  The check does not      *)
+(* re-implement how the code rounds the window or anchors coarse periods; it *)
+(* states what C06 / C07 state, relative to the timestamps T of the rows     *)
+(* actually returned:                                                        *)
+(*  - rows of one key are at least P apart (periods are disjoint);           *)
+(*  - a row (k, T) holds the native cells whose key projects to k and whose  *)
+(*    period end lies in (T - P, T]: all of them that lie wholly inside the  *)
+(*    requested window, none that lie wholly outside it;                     *)
+(*  - every native cell wholly inside the window is covered by some row.     *)
+Bound(b, now) == CASE b.k = "abs" -> b.v [] b.k = "rel" -> now + b.v [] OTHER -> 0
+MustIn(t, p, d, now) ==          \* the period lies wholly inside the window
+  \* (the default window's lower end is computed from the rounded-up clock
+  \* and rounded up again, query.go:62-63: one resolution of slack there)
+  LET lo == IF d.asOf.k = "none" THEN now - Ret[t] + Res[t] ELSE Bound(d.asOf, now)
+      hi == IF d.until.k = "none" THEN p ELSE Bound(d.until, now)
+  IN p - Res[t] >= lo /\ p <= hi
+MayIn(t, p, d, now) ==           \* the period is not wholly outside it
+  LET lo == IF d.asOf.k = "none" THEN now - Ret[t] - Res[t] ELSE Bound(d.asOf, now)
+      hi == IF d.until.k = "none" THEN p + 1 ELSE Bound(d.until, now)
+  IN p > lo /\ p - Res[t] < hi
+GroupedOK(t, B, d, now, obs) ==
+  LET P     == IF d.m = 0 THEN Res[t] ELSE d.m * Res[t]
+      proj(k) == GProj[d.by][k]
+      \* native cells feeding output cell o = <<k, T, f, id>>
+      feed(o, in(_)) == {e \in DOMAIN B : /\ proj(e[1]) = o[1] /\ e[3] = o[3]
+                                           /\ (IsPts(e[3]) \/ e[4] = o[4])
+                                           /\ e[2] > o[2] - P /\ e[2] <= o[2] /\ in(e[2])}
+      must(p) == MustIn(t, p, d, now)
+      may(p)  == MayIn(t, p, d, now)
+      sum(S)  == FoldSet(LAMBDA e, acc : acc + B[e], 0, S)
+  IN /\ \A o1, o2 \in DOMAIN obs : (o1[1] = o2[1] /\ o1[2] < o2[2]) => o2[2] - o1[2] >= P
+     /\ \A o \in DOMAIN obs : /\ obs[o] >= sum(feed(o, must))
+                               /\ obs[o] <= sum(feed(o, may))
+     /\ \A e \in DOMAIN B : must(e[2]) =>
+           \E o \in DOMAIN obs : /\ o[1] = proj(e[1]) /\ o[3] = e[3] /\ (IsPts(e[3]) \/ o[4] = e[4])
+                                  /\ e[2] > o[2] - P /\ e[2] <= o[2]
+
+TGQueryResult ==
+  /\ IsEv("GQueryResult")
+  /\ LET q == qs[Line.t]
+         B == Shown(IF Line.mem THEN q.mem ELSE q.disk, Line.t, Line.fields, FALSE, q.clock)
+     IN Line.err = "" => GroupedOK(Line.t, B, Line.desc, q.clock, ObsBag(Line.rows))
+  /\ UNCHANGED <<vars, qs, ss, scn, fails>>
+
 \* a query whose result is not bound here (its scan starts are still lines of
 \* the trace); being a query, it changes nothing
 TOther == IsEv("Other") /\ UNCHANGED <<vars, qs, ss, scn, fails>>
 
 Normal ==
-  \/ TOther \/ TReset \/ TStart \/ TOpen \/ TInsert \/ TDecide \/ TApply
+  \/ TOther \/ TGQueryResult \/ TReset \/ TStart \/ TOpen \/ TInsert \/ TDecide \/ TApply
   \/ TFlushBegin \/ TFlushTemp \/ TFlushRename \/ TFlushSwap \/ TOffWrite \/ TRemoveOld
   \/ TAlterFields \/ TRSFields \/ TAlterWhere \/ TCrash \/ TClose
   \/ TQueryStart \/ TQueryResult \/ TScanBegin
@@ -150,6 +200,10 @@ StuckInfo ==
   THEN LET q == IF Line.held > 0 THEN ss[Line.t] ELSE qs[Line.t]
            M == Observable(Shown(IF Line.mem THEN q.mem ELSE q.disk, Line.t, Line.fields, Line.win, q.clock))
        IN [at |-> l, clock |-> q.clock, model |-> {<<e, M[e]>> : e \in DOMAIN M}]
+  ELSE IF Line.a = "GQueryResult"
+  THEN LET q == qs[Line.t]
+           B == Shown(IF Line.mem THEN q.mem ELSE q.disk, Line.t, Line.fields, FALSE, q.clock)
+       IN [at |-> l, clock |-> q.clock, model |-> {<<e, B[e]>> : e \in DOMAIN B}]
   ELSE [at |-> l, clock |-> clock, rd |-> rd, pend |-> pend, pc |-> [t \in Tables |-> fl[t].pc],
         off |-> [t \in Tables |-> mem[t].off]]
 TSkip ==
